@@ -988,7 +988,9 @@ def run(ctx: vlib.Ctx):
         "dataclass fields) for encoders, decoders and their errors")
     ctx.trusted += [
         "C15: harness/c15lib.py materialiser (Python source of the class table and the Coq env denote the same schema; "
-        "predicted_has_method = which plain classes own __mashumaro_to_dict__), canonicaliser and exception reduction "
+        "predicted_has_method = which plain classes own __mashumaro_to_dict__; since round 6 compared on every run with the "
+        "class __dict__s of a fresh module AND recomputed inside Coq by C15Nailed.k_module_exec over kernel K115a - flags tie), "
+        "canonicaliser and exception reduction "
         "(raw / union / InvalidFieldValue(field,holder) / MissingField(field,holder))",
         "C15 model: CPython primitives modelled-not-verified: attribute lookup through the MRO (dispatch), list/dict .copy(), "
         "iteration and indexing of list/tuple, dict.get, int()/str()/date.fromisoformat on the generated alphabet; "
@@ -1012,8 +1014,10 @@ def run(ctx: vlib.Ctx):
         "tables the kernel K13C reads off mashumaro/mixins/*.py, where a built-in dialect (date strategy, no_copy_collections) makes a "
         "union-reaching type fall outside the model (counted in format_tie)",
         "lazy compilation, module identity and PEP 563 are outside the Coq model (invisible there): covered by the correspondence "
-        "(as invariance) and the oracles; strategies, no_copy_collections, namedtuple_as_dict, non-literal defaults / "
-        "default_factory, non-str mapping keys remain oracle-only",
+        "(as invariance) and the oracles; strategies, no_copy_collections, namedtuple_as_dict, non-str mapping keys "
+        "remain oracle-only (non-literal defaults / default_factory results are in the model since round 5); holders / registries of the "
+        "codec path, the dataclass call site and the installed-method flags are in the model since round 6 (kernel K115a); "
+        "self-referencing dataclasses: one fixed scenario (known finding codec-selfref-construction), not generated",
         "typing interns parametrised generics by equal arguments (List[Union[A,B]] is List[Union[B,A]]): modules in which the "
         "type objects do not have the generated member order are dropped (stated predicate module_matches_scenario)",
     ]
@@ -1383,6 +1387,11 @@ def replay(rep: dict) -> int:
             b = res_key(L.call(lambda: BasicEncoder(S, **kw).encode(s_inst)))
             print("subclass.to_dict:", show(a)); print("codec           :", show(b))
             rc = 1 if a != b else 0
+        elif entry == "generic-self":
+            from harness import c15holders
+            a, b, da, db = c15holders.generic_self_results(mod)
+            print("mixin:", a, da); print("codec:", b, db)
+            rc = 1 if (a != b or da != db) else 0
         else:
             print("unknown replay entry", entry)
             return 2
